@@ -138,22 +138,3 @@ Proof.
   intros. unfold cmd_after. rewrite auth_window_closed. reflexivity.
 Qed.
 
-(* two records per command line written *)
-Lemma loop_log_len : forall S (m : mech S) active name rest s code msg64 o,
-  length (o_log o) = (2 * length (o_sent o))%nat ->
-  let f := auth_loop m active name s code msg64 rest o in
-  length (o_log (f_out f)) = (2 * length (o_sent (f_out f)))%nat.
-Proof.
-  intros S m active name rest. induction rest as [|r rest IH]; intros s code msg64 o L; simpl.
-  all: assert (AB : forall res (s' : S) script, length (o_log (f_out (abort_path active name res s' script o))) =
-                     (2 * length (o_sent (f_out (abort_path active name res s' script o))))%nat)
-    by (intros; unfold abort_path; destruct (is_xoauth2 name); simpl; rewrite !app_length; simpl; lia).
-  all: destruct (code =? code_challenge);
-    [ destruct (b64dec (filter no_crlf_byte msg64)) as [dm|]; [|apply AB];
-      destruct (m_next m s dm true) as [s' [[resp|]|]]; simpl; auto
-    | destruct (code =? code_success); [|apply AB];
-      destruct (m_next m s msg64 false) as [s' [[resp|]|]]; simpl; auto ].
-  all: try (rewrite !app_length; simpl; lia).
-  all: destruct r; simpl; try (rewrite !app_length; simpl; lia).
-  all: apply IH; simpl; rewrite !app_length; simpl; lia.
-Qed.
